@@ -243,6 +243,7 @@ class Woven:
         self.annot_tokens = 0
         self.new_tokens = 0
         self.removed_tokens = 0
+        self.body_open_lines = []   # 0-based line offsets (in text) of the `{` opening each fn body
 
 
 def weave(e_src, e0_src, p_src):
@@ -340,6 +341,34 @@ def weave(e_src, e0_src, p_src):
             w.code_tokens += 1
     w.text = ''.join(pieces) + tail
     w.line_tags = tags
+    # fn body openings (computed on the code tokens only, which form plain Rust)
+    tok_line = []
+    ln = 0
+    for text, tag, sep in out:
+        ln += sep.count('\n')
+        tok_line.append(ln)
+        ln += text.count('\n')
+    code_idx = [i for i, (t, tag, _) in enumerate(out) if tag != 'annot']
+    k = 0
+    n = len(code_idx)
+    while k < n:
+        if out[code_idx[k]][0] == 'fn' and k + 1 < n:
+            depth = 0
+            j = k + 1
+            while j < n:
+                t = out[code_idx[j]][0]
+                if t in ('(', '['):
+                    depth += 1
+                elif t in (')', ']'):
+                    depth -= 1
+                elif depth == 0 and t == ';':
+                    break
+                elif depth == 0 and t == '{':
+                    w.body_open_lines.append(tok_line[code_idx[j]])
+                    break
+                j += 1
+            k = j
+        k += 1
     # re-check the guarantee: code tokens of the woven text == tokens of E
     code = [t for (t, tag, _) in out if tag != 'annot']
     if code != [t.t for t in e_toks]:
